@@ -6,4 +6,7 @@
 if [ -z "${VF_NO_NS:-}" ] && unshare -n -m true 2>/dev/null; then
   VF_IN_NS=1 exec unshare -n -m sh -c 'ip link set lo up; exec "$@"' sh "$@"
 fi
-VF_IN_NS=0 exec "$@"
+# shared namespace: every engine gets an address plan of its own (127.<20+slot>.x.y), derived
+# from its process id, so that the engines of one check and checks running side by side do not
+# bind the same addresses
+VF_IN_NS=0 VF_SLOT=${VF_SLOT:-$(( $$ % 200 ))} exec "$@"
